@@ -12,6 +12,8 @@
 //   D id                         router->deleteShape(shape)
 //   C id sx sy dx dy             new ConnRef(router, ConnEnd(s), ConnEnd(d), id)
 //   E id which x y               which 0: setSourceEndpoint, 1: setDestEndpoint
+//   N shape cls xoff yoff inside dirs excl   new ShapeConnectionPin(shape, cls, xoff, yoff, proportional = true, inside, dirs); excl 0/1: setExclusive, -1: default
+//   Q id sx sy shape cls         new ConnRef(router, ConnEnd(Point(sx,sy)), ConnEnd(shape, cls), id)     (shared-pin scenes, C03, DESIGN 9.20)
 //   Y id type                    ConnRef::setRoutingType: type 1 ConnType_PolyLine, 2 ConnType_Orthogonal (dual-mode routers; DESIGN 9.20)
 //   O name v                     setRoutingOption: name in nudgeConnected | improveMoving | improveAddDel | unifying | touchingColinear
 //   F name v                     public Router member flag (router.h:411-424): name in InvisibilityGrph | UseLeesAlgorithm | RubberBandRouting |
@@ -179,6 +181,11 @@ int main()
                 else if (tag == "E") { int id, which; double x, y; std::cin >> id >> which >> x >> y;
                     if (which == 0) cn.at(id)->setSourceEndpoint(ConnEnd(Point(x, y)));
                     else cn.at(id)->setDestEndpoint(ConnEnd(Point(x, y))); }
+                else if (tag == "N") { int sid, excl; unsigned cls, dirs; double xo, yo, ins; std::cin >> sid >> cls >> xo >> yo >> ins >> dirs >> excl;
+                    ShapeConnectionPin *pin = new ShapeConnectionPin(sh.at(sid), cls, xo, yo, true, ins, (ConnDirFlags) dirs);
+                    if (excl >= 0) pin->setExclusive(excl != 0); }
+                else if (tag == "Q") { int id, sid; unsigned cls; double a, b; std::cin >> id >> a >> b >> sid >> cls;
+                    cn[id] = new ConnRef(router, ConnEnd(Point(a, b)), ConnEnd(sh.at(sid), cls), id); }
                 else if (tag == "Y") { int id, ty; std::cin >> id >> ty;
                     cn.at(id)->setRoutingType(ty == 2 ? ConnType_Orthogonal : ConnType_PolyLine); }
                 else if (tag == "O") { std::string name; int v; std::cin >> name >> v;
